@@ -38,13 +38,16 @@ func (i *fieldIndex) UnmarshalJSON(data []byte) error {
 	i.Index = t.Index
 	i.nameSplit = fieldPath(i.Name)
 
-	for _, f := range i.Index {
-		f.valueTypeFromString(i.Cast)
-	}
-
 	i.objectIds = make(map[uint64]*indexedField)
-	for _, k := range i.Index {
-		i.objectIds[k.ObjectId] = k
+	for _, f := range i.Index {
+		// null entry in JSON
+		if f == nil {
+			return fmt.Errorf("%w, null entry in index of field %s", ErrCasting, i.Name)
+		}
+		if err := f.valueTypeFromString(i.Cast); err != nil {
+			return err
+		}
+		i.objectIds[f.ObjectId] = f
 	}
 	return nil
 }
